@@ -29,6 +29,12 @@ CHECKS = {
                 text=SESSION_TXT + "; the statement's flag rules are checked at every event and, at every terminating event, a brand-new context with the same configuration is forked; "
                      "used context and forks must render identically for the rest of the history (the configurations switch on the options that reveal each hidden piece of state)",
                 note="store held fixed (no learning commits); brand-new contexts are created with an empty database directory; bounded depth"),
+    "C03": dict(category=MC, design_ref="DESIGN.md 5 C03",
+                technique="TLC model checking of Split.tla (ImplSplit = PropSplit on wrapped words) + TLC-generated scenarios replayed with the okkhor parser as transliteration oracle",
+                text="TLC enumerates every class string to length 6/7 (wrapped words), 4/5 (arbitrary class strings) and every string over the 94 typeable characters to "
+                     "length 2/3, checks the split on the model and emits one scenario per string; the harness concretises, types the text through key events and "
+                     "compares with okkhor(P)+okkhor(W)+okkhor(Q): equality with suggestions off, membership (modulo curling) with suggestions on under 3 option sets",
+                note="transliteration itself is the okkhor public parser (oracle by definition); contexts with suggestions on are pooled and a mismatch is confirmed on brand-new contexts"),
     "C04": dict(category=MC, design_ref="DESIGN.md 5 C04",
                 technique="TLC exhaustive enumeration of Layout.Expected over the complete key space + exhaustive comparison of the real engine against the emitted table",
                 text="the space 65536 codes x 11 modifier patterns x numpad x 2 layouts is finite and enumerated completely on both sides: TLC (2.9M states) "
@@ -53,5 +59,11 @@ CHECKS = {
                      "chandrabindu, independent vowel, punctuation, digit) x 16 helper settings and checks OldOrderEquiv and the waiting-sign clauses on the transcript; "
                      "each word is typed both ways into two real contexts and the texts compared after every syllable, plus the waiting-sign clauses on the real engine",
                 note="only grammar-generated words (behaviour on ill-formed key sequences is descriptive); bounded word length; TLC, harness executor trusted"),
+    "C17": dict(category=MC, design_ref="DESIGN.md 5 C17",
+                technique="TLC enumeration of class strings with Split.tla deciding the wrapping + paired replay (option on/off) with the spec's curling relation per candidate",
+                text="TLC enumerates every quote-containing class string to length 5/7 in both methods, decides word/wrapping with Split.tla and emits paired scenarios "
+                     "(contexts differing only in the option, two settings of English/ANSI); the harness checks same kind/length/preselection, untouched raw text and "
+                     "punctuation-only text, and the exact curled form of every other candidate; SmartQuoteLocal is model-checked for all class strings",
+                note="split of the transcript defines the wrapping for both sides of a pair; pooled contexts with confirmation on brand-new contexts"),
 }
 NOT_APPLICABLE = {}
